@@ -291,7 +291,7 @@ pub fn run(rep: &mut Report) {
         Some(v) => std::env::set_var("L4V_JOBS", v),
         None => std::env::remove_var("L4V_JOBS"),
     }
-    if rep.tier == "thorough" && std::env::var("L4V_NO_MIRI").is_err() {
+    if rep.tier == "thorough" && std::env::var("L4V_NO_MIRI").is_err() && std::env::var("L4V_SUBRUN").is_err() {
         crate::miri::run_miri_seeds(rep, "C17", 32);
         rep.require(rep.counter("miri_seeds_run") >= 32 / 2, "fewer than half of the Miri seeds produced a result");
     }
